@@ -10,6 +10,7 @@ package c05
 import (
 	"encoding/json"
 	"fmt"
+	"math/rand"
 	"os"
 	"reflect"
 	"strings"
@@ -268,6 +269,88 @@ func TestC05(t *testing.T) {
 		}
 		if failures > 10 {
 			break
+		}
+	}
+	// operations issued from inside an iteration callback: the final state is the model's, and every
+	// item that no such operation touched is visited exactly once, in order (what the iteration does
+	// with the touched ones is left open)
+	{
+		r := rand.New(rand.NewSource(7))
+		alpha := []string{"a", "b", "c", "d", "e", "f", "g", "h"}
+		rounds := 20000
+		if os.Getenv("VERIF_TIER") == "thorough" {
+			rounds = 300000
+		}
+		for n := 0; n < rounds && failures < 5; n++ {
+			o := ordered.NewMap[string, int](0)
+			var m model
+			for i, k := range alpha[:3+r.Intn(6)] {
+				o.Set(k, i)
+				m = m.set(k, i)
+			}
+			for d := r.Intn(5); d > 0; d-- { // tombstones, below or across the compaction threshold
+				k := alpha[r.Intn(len(alpha))]
+				o.Delete(k)
+				m = m.del(k)
+			}
+			start := append(model(nil), m...)
+			touched := map[string]bool{}
+			at, kind := r.Intn(3), r.Intn(3)
+			a, b := alpha[r.Intn(len(alpha))], alpha[r.Intn(len(alpha))]
+			var visits []string
+			step := 0
+			desc := fmt.Sprintf("start %v; at visit %d: ", start, at)
+			func() {
+				defer func() {
+					if p := recover(); p != nil {
+						failures++
+						t.Errorf("%spanic %v", desc, p)
+					}
+				}()
+				o.Range(func(k string, v int) error {
+					visits = append(visits, k)
+					if step == at {
+						switch kind {
+						case 0:
+							o.Replace(a, b, 100)
+							m = m.replace(a, b, 100)
+							desc += fmt.Sprintf("Replace(%s,%s)", a, b)
+						case 1:
+							o.Delete(a)
+							m = m.del(a)
+							desc += fmt.Sprintf("Delete(%s)", a)
+						default:
+							o.Set(a, 100)
+							m = m.set(a, 100)
+							desc += fmt.Sprintf("Set(%s)", a)
+						}
+						touched[a], touched[b] = true, true
+					}
+					step++
+					return nil
+				})
+			}()
+			cases++
+			if msg := observe(t, desc, o, m); msg != "" {
+				failures++
+				t.Error(msg)
+				continue
+			}
+			var want, got []string
+			for _, p := range start {
+				if !touched[p.k] {
+					want = append(want, p.k)
+				}
+			}
+			for _, k := range visits {
+				if !touched[k] {
+					got = append(got, k)
+				}
+			}
+			if len(start) > at && fmt.Sprint(got) != fmt.Sprint(want) {
+				failures++
+				t.Errorf("%s: the iteration visited the untouched items %v, want each once in order: %v", desc, got, want)
+			}
 		}
 	}
 	// observers of a nil map (conversion included) do not panic and see an empty map
